@@ -281,7 +281,8 @@ EXTS = [None, 'permessage-deflate', 'permessage-deflate; client_no_context_takeo
 
 
 def history_scenario(rng, ext, key_seed):
-    base = gen_core.rand_text(rng, rng.choice([12, 40, 300, 900])).decode('utf-8')      # 900: repeats lie further back than a 2^8 / 2^9 window
+    # a negotiated window below 2^15 only matters when repeats lie further back than the window: long texts there
+    base = gen_core.rand_text(rng, 900 if (ext and 'bits' in ext) else rng.choice([12, 40, 300, 900])).decode('utf-8')
     t1, t2 = 'header: ' + base, base + ' again ' + base
     b1 = ('bin ' + base).encode('utf-8') + gen_core.rand_bytes(rng, 20)
     acts = [('send_text', ('s', [ord(c) for c in t1]), True), ('send_binary', ('b', b1), True), ('send_text', ('s', [ord(c) for c in t2]), False),
